@@ -324,8 +324,8 @@ def key_views_funnel_only(ctx, chk, R1, S):
     return key_views
 
 
-def run(ctx):
-    chk = Check('C02', ctx)
+def run(ctx, host=None):
+    chk = host.sub('C02') if host is not None else Check('C02', ctx)
     prog, K, E = ctx.prog, ctx.kinds, ctx.effects
     R1 = chk.rule('C02.R1', 'every public key view answers through the single read funnel; negative answers come from its MISSING outcome only', 9)
     R2 = chk.rule('C02.R2', 'funnel partitions the request: index -> loose (not found in index) -> refreshed index (loose probe failed) -> MISSING (still not found)', 6)
@@ -987,6 +987,11 @@ def run(ctx):
         chk.ok(R6, lo.qualname, norm(adds[0]), detail='re-adds the object read through the public reader with the loose writer and compares the resulting key with the requested one')
     else:
         chk.bad(R6, lo.qualname, 'loosen_object', 'loosen_object does not copy the object through the public reader and the loose writer with a key comparison', where=f'{lo.module.relpath}:{lo.lineno}')
+
+    # rules of other properties that are necessary conditions of this one too: the views equal the model only if the round trip (C01), the index (C03), the streams (C07), deduplication (C09), compression (C10), deletion/repack (C11), import (C14) and bulk lookups (C16) are right
+    if host is None:
+        from ..report import host_modules
+        host_modules(chk, ctx, ['C01', 'C03', 'C07', 'C09', 'C10', 'C11', 'C14', 'C16'])
 
     return chk.finish(
         explanation=('Static structural rules behind "every view equals a key->bytes map": call-graph check that all public key views answer through one read funnel and derive '
